@@ -812,8 +812,15 @@ func srvAsyncWrite(o *common.Out, id string, pool bool, style string) {
 	}
 	defer peer.close()
 	fail := func(sig, d string) { o.Fail(id, sig, d, abstract) }
+	failing := strings.HasSuffix(style, "!") // the three requests fail, each with a text of its own
+	style = strings.TrimSuffix(style, "!")
 	reqs := []sreqCase{{seq: 11, style: style, ser: 1, a: 3, b: 5, mode: "ok"}, {seq: 12, style: style, ser: 1, a: 7, b: 9, mode: "ok"},
 		{seq: 13, style: style, ser: 1, a: 2, b: 4, mode: "ok"}}
+	if failing {
+		for i, t := range []int{6, 1, 3} {
+			reqs[i].mode, reqs[i].text = "err", t
+		}
+	}
 	for rid, q := range reqs {
 		path, meth := q.pathMethod()
 		if err := peer.send(reqSpec{seq: q.seq, path: path, method: meth, ser: 1, payload: q.payload(rid),
@@ -868,6 +875,12 @@ func srvAsyncWrite(o *common.Out, id string, pool bool, style string) {
 		rid := int(v.seq) - 11
 		if rid < 0 || rid > 2 {
 			fail("wrong-result", fmt.Sprintf("a response with sequence number %d, which no request carried: %s", v.seq, showView(v, nil, -1)))
+			continue
+		}
+		if failing {
+			if v.status != "error" || v.errText != srvTexts[reqs[rid].text] {
+				fail("error-text-changed", fmt.Sprintf("request %d (seq %d) failed with %q; its caller received status=%s text=%q", rid, v.seq, shorten(srvTexts[reqs[rid].text]), v.status, shorten(v.errText)))
+			}
 			continue
 		}
 		rp, ok := replyOf(v)
@@ -1159,12 +1172,17 @@ func runSrv(prop string, r *common.Rand, tier string, o *common.Out, replay stri
 		}
 		runtime.GOMAXPROCS(prev)
 	}
-	if prop == "C04" || prop == "C20" {
+	if prop == "C04" || prop == "C20" || prop == "C07" {
 		k := 0
 		for _, pool := range []bool{false, true} {
 			for _, style := range []string{"method", "pooled", "func", "router"} {
 				k++
-				srvAsyncWrite(o, fmt.Sprintf("async%d", k), pool, style)
+				if prop != "C07" {
+					srvAsyncWrite(o, fmt.Sprintf("async%d", k), pool, style)
+				}
+				if prop != "C20" {
+					srvAsyncWrite(o, fmt.Sprintf("asyncf%d", k), pool, style+"!")
+				}
 			}
 		}
 	}
